@@ -107,8 +107,8 @@ C["C08"] = dict(level="other",
  stubs=["zzMsgs", "funcs model", "zzBytesCodec (returns an error for a value of the wrong type, like GOGOPB/CODE/MSGP codecs)"],
  bounds={"frame length": "decoders: quick 0..4, thorough 0..6; client reader: 0..3 (thorough 4) with 8-byte read buffers", "burst": "2 (thorough 3) requests", "schedules": SCHED},
  outside=["the framing layer's own varint-overflow panic and allocation of a peer-announced length", "memory exhaustion", "TLS/ws handshakes", "poll-mode teardown"],
- runs={"quick": [run("C08dec"), run("C08big"), run("C08srv", labels=["panic", "probe-reply", "probe-answered-once"]), run("C08seq"), run("C08cli"), run("C08down"), run("C02r", P=1, gran=1, labels=["panic"])],
-       "thorough": [run("C08dec", params={"c08.N": 6}, budget=1500), run("C08big"), run("C08seq", params={"seq.N": 3}, budget=1500), run("C08srv", labels=["panic", "probe-reply", "probe-answered-once"]), run("C08cli", params={"c08.N": 4}, budget=1500), run("C08down", params={"down.N": 3}), run("C08down", P=1, gran=1, budget=1500)]})
+ runs={"quick": [run("C08dec"), run("C08big"), run("C08srv", labels=["panic", "probe-reply", "probe-answered-once"]), run("C08seq"), run("C08cli"), run("C08down"), run("C08down", P=1, gran=1), run("C02r", P=1, gran=1, labels=["panic"])],
+       "thorough": [run("C08dec", params={"c08.N": 6}, budget=1500), run("C08big"), run("C08seq", params={"seq.N": 3}, budget=1500), run("C08srv", labels=["panic", "probe-reply", "probe-answered-once"]), run("C08cli", params={"c08.N": 4}, budget=1500), run("C08down", params={"down.N": 3}), run("C08down", P=1, gran=1, params={"down.N": 3}, budget=2400), run("C02r", P=2, gran=1, labels=["panic"], budget=900)]})
 
 C["C09"] = dict(level="other",
  explanation="Client side: the real NewStream / stream branches of send and read / readStream queue / stream.ReadMessage against an environment that acknowledges the open request and pushes N messages with symbolic contents without pausing after the acknowledgement; the sequence returned by ReadMessage must equal the sequence pushed. Server side: the real ServeRequest/callService stream branches and the stream write closure with a handler that writes and reads in either order; the wire must carry the acknowledgement before the first push and the pushes in order, the handler must read exactly what the client sent.",
